@@ -251,6 +251,10 @@ type KVEncCase struct {
 	// FailPut > 0: the FailPut-th PUT of a node object of the encrypted run fails once with
 	// a transport error; the application starts over until a commit succeeds
 	FailPut int `json:"fail_put,omitempty"`
+	// Split > 0: the tamper / wrong-passphrase phase runs on a bucket in which two handles
+	// committed side by side (keys[:Split] and keys[Split:]): the reader has to merge two
+	// current versions, and the tampered node may belong to either
+	Split int `json:"split,omitempty"`
 }
 
 func genKVEncCase(t *rapid.T) KVEncCase {
@@ -269,6 +273,9 @@ func genKVEncCase(t *rapid.T) KVEncCase {
 		seen[k] = true
 		c.Keys = append(c.Keys, k)
 		c.Vals = append(c.Vals, hex.EncodeToString(rapid.SliceOfN(rapid.Byte(), 16, 16).Draw(t, "v")))
+	}
+	if n >= 2 && rapid.Bool().Draw(t, "two") {
+		c.Split = rapid.IntRange(1, n-1).Draw(t, "split")
 	}
 	return c
 }
@@ -430,6 +437,42 @@ func runKVEnc(c KVEncCase, o *Obs) error {
 	}
 	if err := readAll(st, kv.V1NodeEncryptor(pass)); err != nil {
 		return fmt.Errorf("reading back with the right passphrase: %v", err)
+	}
+	if c.Split > 0 && c.Split < len(c.Keys) {
+		// two writers committed side by side: two current versions for the reader to merge
+		st = fakes3.New()
+		var hs []*kv.DB
+		for range []int{0, 1} {
+			db, err := kv.Open(ctx, st.Client("verif://kv"), kvCfg("b", c.BF, kv.V1NodeEncryptor(pass)), kv.OpenOptions{}, time.Unix(700, 0))
+			if err != nil {
+				return fmt.Errorf("two writers: open: %v", err)
+			}
+			hs = append(hs, db)
+		}
+		for i, k := range c.Keys {
+			kb, _ := hex.DecodeString(k)
+			vb, _ := hex.DecodeString(c.Vals[i])
+			db := hs[0]
+			if i >= c.Split {
+				db = hs[1]
+			}
+			if err := db.Set(ctx, time.Unix(1000+int64(i), 0), string(kb), string(vb)); err != nil {
+				return fmt.Errorf("two writers: set: %v", err)
+			}
+		}
+		for _, db := range hs {
+			if _, err := db.Commit(ctx); err != nil {
+				return fmt.Errorf("two writers: commit: %v", err)
+			}
+		}
+		if n := len(st.Keys("enc/root/current/")); n != 2 {
+			return fmt.Errorf("harness bug: %d current versions after two side-by-side commits", n)
+		}
+		nodes = st.Keys("enc/node/")
+		if err := readAll(st, kv.V1NodeEncryptor(pass)); err != nil {
+			return fmt.Errorf("two writers: reading back with the right passphrase: %v", err)
+		}
+		o.Class("reader-merges-two-versions")
 	}
 	if c.Wrong {
 		err := readAll(st, kv.V1NodeEncryptor(append(pass, 'x')))
